@@ -23,7 +23,7 @@ from fiddle._src.validation import no_custom_objects
 from hypothesis import strategies as st
 
 from harness import canon as C
-from harness.gen import dags
+from harness.gen import dags, leaves
 from harness.runner import Outcome, exc_kind, fiddle_frame
 import harness.vuni as vuni
 from harness.vuni import tags as vtags
@@ -50,7 +50,7 @@ ASSUMPTIONS = [
     'an API that raises on an input is not a C17 violation; only a changed input is',
 ]
 BUDGET = {'quick': 16 * 450, 'thorough': 16 * 9000}
-FLOORS = {'sharing': 0.4, 'has_tags': 0.5, 'long_value': 0.3}
+FLOORS = {'sharing': 0.3, 'has_tags': 0.5, 'long_value': 0.3}
 
 LONG = 'L' * 90
 
@@ -133,14 +133,34 @@ def strategy_(draw, tier):
   recipe = draw(dags.dag(
       max_nodes=9, min_nodes=3, tags=True, bts=('Config', 'Config', 'Partial'),
       kinds=['B', 'B', 'B', 'list', 'tuple', 'dict', 'Bpos', 'TV', 'Bempty', 'ltuple'],
-      fns=['things:f2', 'things:h1', 'things:Base', 'things:mutdef'],
+      fns=['things:f2', 'things:h1', 'things:Base', 'things:mutdef', 'things:mutating'],
       root_kinds=['B'], p_alias=0.8, allow_copyof=False))
   # a long value somewhere
   if draw(st.floats(0, 1)) < 0.6:
     bn = [nd for nd in recipe['nodes'] if nd['k'] == 'B' and nd['fn']['name'] in ('things:f2', 'things:Base')]
     if bn:
       draw(st.sampled_from(bn))['kw']['y'] = {'leaf': LONG}
-  return {'recipe': recipe, 'api': draw(st.sampled_from(API_NAMES))}
+  api = draw(st.sampled_from(API_NAMES + ['build'] * 3))
+  if api == 'build' and draw(st.booleans()):
+    # a callable that modifies its container argument in place, given a Buildable-free container
+    nodes = recipe['nodes']
+    leaf = lambda: {'leaf': draw(leaves.leaf('plain'))}
+    if draw(st.booleans()):
+      nodes.append({'k': 'list', 'items': [leaf() for _ in range(draw(st.integers(0, 3)))]})
+    else:
+      nodes.append({'k': 'dict', 'keys': ['k0', 'k1'][:draw(st.integers(0, 2))], 'items': []})
+      nodes[-1]['items'] = [leaf() for _ in nodes[-1]['keys']]
+    ci = len(nodes) - 1
+    if draw(st.booleans()):
+      nodes.append({'k': 'list', 'items': [ci, leaf()]})
+      ci += 1
+    nodes.append({'k': 'B', 'bt': 'Config', 'fn': {'kind': 'sym', 'name': 'things:mutating'}, 'pos': [],
+                  'kw': {'x': {'leaf': 'uidM'}, 'child': ci}, 'edits': []})
+    nodes.append({'k': 'B', 'bt': 'Config', 'fn': {'kind': 'sym', 'name': 'things:h1'}, 'pos': [],
+                  'kw': {'a': {'leaf': 'uidR'}, 'b': recipe['root'], 'c': len(nodes) - 1,
+                         **({'d': ci} if draw(st.booleans()) else {})}, 'edits': []})
+    recipe['root'] = len(nodes) - 1
+  return {'recipe': recipe, 'api': api}
 
 
 def strategy(tier):
